@@ -840,10 +840,14 @@ class memmap(ndarray):
         node = fobj.node
         if nbytes == 0:
             raise ValueError('cannot mmap an empty file')
-        if node.size() < nbytes:
-            raise ValueError('mmap length is greater than file size')
         if mode in ('r+', 'readwrite') and not fobj.writable_flag:
             raise PermissionError('mmap: file not open for writing')
+        if node.size() < nbytes:
+            if mode in ('r+', 'readwrite'):
+                # measured (NumPy >= 2.2): a file that is too short is EXTENDED with zero bytes
+                symfs.truncate_node(node, nbytes)
+            else:
+                raise ValueError('mmap length is greater than file size')
         ndarray.__init__(self, d, shape, None, writeable=(mode in ('r+', 'readwrite', 'c')),
                          order=order)
         self._node = node
